@@ -492,8 +492,13 @@ def cmp_rates(nv, slots, pcount, res):
         elif x.v < 0:
             bits += 2 ** i
     w = row[1 + len(slots)]
-    wi = int(round(w * 1000)) if isinstance(w, float) and w == w and abs(w) < 1e6 else -1
-    if wi < 0 or abs(w * 1000 - wi) > 1e-9 or (wi & ~mask) != bits:
+    ok = isinstance(w, float) and w == w
+    if ok and mask == 0:
+        ok = abs(w * 1000 - bits) <= 1e-9 * max(bits, 1)
+    elif ok:
+        # an undetermined sign may differ between the evaluations of one step: its bit contributes any fraction
+        ok = bits - 1e-9 <= w * 1000 <= bits + mask + 1e-9
+    if not ok:
         raise Violation("value", "RATES: sign word of the observed values is %r * 1000, reference %d (undetermined bits %d)" % (w, bits, mask))
 
 
@@ -582,6 +587,8 @@ def check_valid(case, ctx):
     # ... and the store must have reached its fixed point after the first evaluation (then every later one repeats the second)
     same = same and set(r.store) == set(r2.store) and all(r.store[k].v == r2.store[k].v for k in r.store)
     if same:
+        # the integral mixes the first and the later evaluations: equal values, the larger of the two rounding bounds
+        nv = [br.Num(a.v, max(a.e, b.e)) for a, b in zip(nv, numeric_view(flat2))]
         slots = []
         for k, x in enumerate(nv, 1):
             if len(slots) >= KSLOTS:
@@ -667,9 +674,9 @@ def mutate(lines, rnd):
         if cand and len(lines) > 1:
             del lines[rnd.choice(cand)]
     elif kind == "drop_line_number":
-        # recorded finding: an unnumbered line that divides by zero or READs ends the process (NULL line record);
-        # unnumbered lines are kept in the leg, those two triggers are not
-        cand = [i for i, l in enumerate(lines) if "/" not in l and not re.search(r"(?i)\bREAD\b", l)]
+        # recorded finding: an unnumbered line that divides by zero, READs or opens a loop / subroutine ends the process
+        # (NULL line record, loop record into freed tokens); unnumbered lines are kept in the leg, those triggers are not
+        cand = [i for i, l in enumerate(lines) if "/" not in l and not re.search(r"(?i)\b(READ|FOR|WHILE|GOSUB)\b", l)]
         if cand:
             idx = rnd.choice(cand)
             lines[idx] = re.sub(r"^\s*\d+\s*", "", lines[idx])
